@@ -286,3 +286,10 @@ func rawOrderProblem(r *promql.Result) string {
 	}
 	return ""
 }
+
+func sortCanon(c *Canon) {
+	sort.SliceStable(c.Series, func(i, j int) bool { return c.Series[i].Key < c.Series[j].Key })
+}
+
+// extraOracles are registered by files that need the verif build tag.
+var extraOracles = map[string]func(*Case) CaseResult{}
